@@ -313,6 +313,57 @@ def color_layer_section(ctx):
                     break
 
 
+def dotted_circle_section(ctx):
+    """the DottedCircle pre-filter (from the lib) on fonts that already HAVE a glyph for U+25CC: as a later code point of a glyph
+    with several, as a glyph made only of components, as a plain glyph, under an unusual name -- the filter must recognise it
+    (it adds a glyph of its own only when the font has none), so the character map is exactly the source's and compilation
+    does not raise 'already mapped'"""
+    import ufo2ft
+    from fontTools.ttLib import TTFont
+    sq = lambda x, d: [[(Fr(x), Fr(0), "line"), (Fr(x + d), Fr(0), "line"), (Fr(x + d), Fr(d), "line"), (Fr(x), Fr(d), "line")]]
+    one = (Fr(1), Fr(0), Fr(0), Fr(1))
+    KINDS = ["later code point", "components only", "plain", "absent"]
+    for i in range(ctx.budget(8, 16)):
+        lib = ["ufoLib2", "defcon"][i % 2]
+        kind = KINDS[(i // 2) % 4]
+        flavor = ["ttf", "otf"][(i // 8) % 2]
+        glyphs = [{"name": "a", "unicodes": [0x61], "width": Fr(500), "contours": sq(50, 400), "components": [], "anchors": [("top", Fr(250), Fr(520))]},
+                  {"name": "acutecomb", "unicodes": [0x301], "width": Fr(0), "contours": sq(-40, 60), "components": [], "anchors": [("_top", Fr(0), Fr(480))]},
+                  {"name": "dot", "unicodes": [0x2E], "width": Fr(200), "contours": sq(60, 80), "components": [], "anchors": []}]
+        if kind == "later code point":
+            glyphs.append({"name": "circles", "unicodes": [0x25EF, 0x25CC], "width": Fr(600), "contours": sq(100, 400), "components": [], "anchors": []})
+        elif kind == "components only":
+            glyphs.append({"name": "dottedcircle", "unicodes": [0x25CC], "width": Fr(600), "contours": [], "anchors": [],
+                           "components": [("dot", one + (Fr(100), Fr(100))), ("dot", one + (Fr(300), Fr(100))), ("dot", one + (Fr(200), Fr(300)))]})
+        elif kind == "plain":
+            glyphs.append({"name": "zz.circle", "unicodes": [0x25CC], "width": Fr(600), "contours": sq(100, 400), "components": [], "anchors": []})
+        desc = {"glyphs": glyphs, "glyphOrder": [g["name"] for g in glyphs],
+                "lib": {"com.github.googlei18n.ufo2ft.filters": [{"name": "dottedCircle", "pre": True}]}}
+        case = {"font": jsonable(desc), "lib": lib, "flavor": flavor, "dotted_circle_glyph": kind, "level": "DottedCircle pre-filter"}
+        ctx.count(); ctx.klass("dotted circle filter: U+25CC %s" % kind); ctx.nontriv(("dc", i, ctx.scale))
+        try:
+            tt = (ufo2ft.compileTTF if flavor == "ttf" else ufo2ft.compileOTF)(build_font(desc, lib), useProductionNames=False)
+            b = io.BytesIO(); tt.save(b); tt = TTFont(io.BytesIO(b.getvalue()))
+        except Exception as e:
+            ctx.spec_failure(case, "compile raised %s: %s\n%s" % (type(e).__name__, e, traceback.format_exc()[-800:]))
+            continue
+        want = {u: g["name"] for g in glyphs for u in g["unicodes"]}
+        order = tt.getGlyphOrder()
+        if kind == "absent":
+            extra = [n for n in order if n not in [g["name"] for g in glyphs] + [".notdef"]]
+            if len(extra) != 1:
+                ctx.spec_failure(dict(case, glyph_order=order), "a font without a U+25CC glyph should gain exactly one: glyph order %r" % order)
+                continue
+            want[0x25CC] = extra[0]
+        elif order != [".notdef"] + [g["name"] for g in glyphs]:
+            ctx.spec_failure(dict(case, glyph_order=order), "the font has a glyph for U+25CC, yet the glyph order is %r" % order)
+            continue
+        got = dict(tt["cmap"].getBestCmap())
+        if got != want:
+            ctx.spec_failure(dict(case, cmap={hex(u): n for u, n in got.items()}), "character map %r, the glyphs declare %r" % (
+                {hex(u): n for u, n in sorted(got.items())}, {hex(u): n for u, n in sorted(want.items())}))
+
+
 def observe_compiled(desc, flavor, lib, explicit_order):
     import ufo2ft
     from fontTools.ttLib import TTFont
@@ -356,6 +407,7 @@ def explore(ctx):
     renamed_cmap_section(ctx)
     family_section(ctx)
     color_layer_section(ctx)
+    dotted_circle_section(ctx)
     notdef_option_section(ctx)
     # ---- function level
     cases, meta = [], []
